@@ -1,5 +1,5 @@
 """C07 - parent/children form one consistent tree over all resolutions."""
-from .. import core, gen, spec
+from .. import bulk, core, gen, spec
 
 LEVEL = "proof"
 MAXFAN = 4 ** 8
@@ -132,7 +132,9 @@ def run(run):
                 allk.extend(v)
         if len(allk) and (sorted(allk) != sorted(gen.all_cells(r + 1))):
             run.violation(f"children of all cells of resolution {r} do not enumerate resolution {r + 1} exactly once", f"level {r}", f"{len(allk)} children")
-    run.rule = ("every cell of resolution -1..%d x every admissible child target (fan-out <= 4^8) x every parent target -2..res+1 incl. defaults, random cells up to r=29, "
+    # bulk: fan-outs of 8*10^4 .. 4*10^6 children (world cell, base cells, quintants, deep cells), compared through digests
+    bulk.check(run, bulk.children_requests(run), "cell_to_children (bulk)", profiles=("release", "debug"))
+    run.rule = ("bulk fan-outs (8e4..4e6 children of the world cell, base cells, quintants and deep cells: length, order-sensitive hash, sum and xor of the ids vs the model and vs closed forms from the tree); every cell of resolution -1..%d x every admissible child target (fan-out <= 4^8) x every parent target -2..res+1 incl. defaults, random cells up to r=29, "
                 "aperture changes -1->0->1->2 on all faces; oracle = independent tree semantics written from the documented layout; non-trivial = distinct (cell, finer target) expansions" % rmax)
     run.samples = [{"request": reqs[i], "impl": impl[i][:160], "model": model[i][:160]} for i in rng.sample(range(len(reqs)), 6)]
     run.extra["exhaustive_up_to_resolution"] = rmax
